@@ -170,18 +170,22 @@ Definition model_differs (pid : N) (rq : request) (cf : config) (ps : prov_spec)
   let out_bad :=
     match out, ob_out ob with
     | Accepted p body pr se, OAccepted m u v hs b pr' se' =>
-        proj_parts pid &&
-        negb (bytes_eqb (pt_method p) m && bytes_eqb (pt_uri p) u && N.eqb (pt_version p) v
-              && headers_equiv (pt_headers p) hs && bytes_eqb body b && bytes_eqb pr pr' && bytes_eqb se se')
+        (* ([if], not [&&]: under vm_compute both arguments of [&&] are evaluated, and comparing the header lists of a
+           request with a thousand headers costs a minute) *)
+        if proj_parts pid then
+          negb (bytes_eqb (pt_method p) m && bytes_eqb (pt_uri p) u && N.eqb (pt_version p) v
+                && headers_equiv (pt_headers p) hs && bytes_eqb body b && bytes_eqb pr pr' && bytes_eqb se se')
+        else false
     | Refused k, ORefused k' _ _ => negb (N.eqb (kind_id k) k')
     | Panicked _, OPanic => false
     | _, _ => true
     end in
-  let calls_bad := proj_calls pid && negb (list_eqb call_eqb (ob_calls ob) calls) in
+  let calls_bad := if proj_calls pid then negb (list_eqb call_eqb (ob_calls ob) calls) else false in
   let creq_bad :=
-    proj_creq pid &&
-    (let '(c, s) := model_creq_sts rq cf in
-     negb (opt_bytes_eqb c (ob_creq ob) && opt_bytes_eqb s (ob_sts ob))) in
+    if proj_creq pid then
+      (let '(c, s) := model_creq_sts rq cf in
+       negb (opt_bytes_eqb c (ob_creq ob) && opt_bytes_eqb s (ob_sts ob)))
+    else false in
   out_bad || calls_bad || creq_bad.
 
 (* ---- property-level predicates, evaluated on the implementation's observation ---- *)
